@@ -182,7 +182,8 @@ def check(ctx, run):
         seq = []
         pn = [p["name"] for p in f.params]
         env = dict(zip(pn, (9000, OLD, size, 111000, 77, sep) if realloc else (9000, size, 111000, 77, sep)))
-        env.update({"allocationSequenceNumber_": 41, "current_period_": 3, "current_allocation_stage_": 7})
+        from .shared import detector_state
+        env.update(detector_state(prog, [("startChecking", [])]))
 
         def h(name, ret):
             return lambda *a_: (seq.append((name, a_)), ret)[1]
